@@ -5,7 +5,7 @@ import os, json, shutil, re, sys
 SRC = "/var/tmp/seedsrc"
 OUT = "/verif/seeded"
 conf = {}
-for f in ("/var/tmp/confirm_all.txt", "/var/tmp/confirm_all2.txt", "/var/tmp/confirm_all3.txt", "/var/tmp/confirm_all4.txt", "/var/tmp/confirm_all5.txt"):
+for f in ("/var/tmp/confirm_all.txt", "/var/tmp/confirm_all2.txt", "/var/tmp/confirm_all3.txt", "/var/tmp/confirm_all4.txt", "/var/tmp/confirm_all5.txt", "/var/tmp/confirm_all6.txt"):
     if os.path.exists(f):
         for line in open(f):
             m = re.match(r"(\S+) suite_with_change_rc=(\d+) failed_targets=(\d+) demo_with_change_rc=(\d+) demo_without_change_rc=(\d+)", line)
@@ -56,6 +56,12 @@ T = {  # id: (property, needs to manifest, demo features, caught by)
  "C07u": ("C07", "two sites: the stop marker only closes the receiver and the loop drains, and stop() falls back to kill() when the mailbox is closed: a second stop() while buffered work drains ends the actor with killed=true", "-", "deductive: stop.relation and the lifecycle monitor"),
  "C11u": ("C11", "two sites: ActorWeak::is_alive computed via upgrade + ActorRef::is_alive, and the erased WeakActorControl::upgrade gated on it: None after the actor ended although a strong ref is held", "-", "deductive: actor_weak.is_alive.iff_both_strong_counts_positive, erased.weak_control.upgrade.same_relation"),
  "C13u": ("C13", "two sites: blocking_tell's helper thread calls tell_with_timeout (records Timeout/'tell'), and the dispatcher relabels + records again: two dead letters for one blocking timeout", "test-utils", "code not under contract -> always-on bounded scenario blocking_timeout (dead-letter delta)"),
+ "C02v": ("C02", "mailbox exactly full when the loop dequeues, a tell ahead of an ask in the backlog: the backlog is pulled into a local queue and sorted asks-first", "-", "undecided by extraction (new helper, VecDeque) -> bounded stand-in: explorer O4 (order)"),
+ "C04v": ("C04", "kill() lands while a handler is running: after the handler a try_recv sees the signal, sets killed and breaks - on_stop never runs", "-", "deductive: lifecycle.loop_exit.stopped_ok (the loop may only be left through Stopped); failing input found by the explorer"),
+ "C05v": ("C05", "on_run returns Err and the cleanup on_stop PANICS: catch_unwind turns the panic into a normal Failed{OnRunThenOnStop} result", "-", "deductive: framework.hook_panics_must_propagate (catch_unwind has an unsatisfiable precondition in the shim) and lifecycle.post; witness hook_panics reproduces (added after this change first came back undecided)"),
+ "C08v": ("C08", "on_run tells its own actor right before returning Ok(false): `idle_enabled = !receiver.is_empty()` keeps idle processing armed and on_run runs again", "-", "deductive: lifecycle.inv.monitor_at_head (after adding Receiver::is_empty to the shim; before: undecided)"),
+ "C10v": ("C10", "tell_with_timeout on a full mailbox, actor dies before the deadline: send_timeout's Closed is reported as Timeout (retryable, early)", "-", "undecided by extraction (send_timeout) -> bounded stand-in: explorer O8/O9"),
+ "C16v": ("C16", "TellHandler::tell_with_timeout with Duration::ZERO on a full mailbox: routed to the unbounded tell", "-", "deductive: erased.tell_with_timeout.same_relation_as_inherent"),
  "C20": ("C20", "handler panics / task aborted while the handler is suspended: inline timing after the handler instead of the RAII guard loses the count", "metrics", "deductive: lifecycle.inv.metrics_guard_closed (guard must be opened before the handler)"),
 }
 os.makedirs(OUT, exist_ok=True)
